@@ -209,6 +209,42 @@ def DIAG(**k):
                 meta={"fns": [f, "take"], "form": "early-pulls", "conflate": False})
 
 
+def reuse_spec(f, maxlen, timeout, n_fixed=None):
+    """one transducer *value* applied several times (into, sequence, transduce, eduction, into again): state belongs to an
+    application, not to the value, so every application must give the reference result"""
+    xf = FUNS[f][1]
+    lo, hi = FUNS[f][3] if FUNS[f][3] is not None else (0, 0)
+    pyref = f"    r = {FUNS[f][2]}\n"
+    module = MODULE + f'''
+MKXF = lisp_eval("(fn [n] {xf})", "verif.c07")
+APPS = [lisp_eval(src, "verif.c07") for src in ("(fn [xf coll] (into [] xf coll))", "(fn [xf coll] (doall (sequence xf coll)))",
+                                                "(fn [xf coll] (transduce xf conj coll))", "(fn [xf coll] (vec (eduction xf coll)))",
+                                                "(fn [xf coll] (into [] xf coll))")]
+def REF(xs, n):
+{pyref}    return r
+def DIAG(**k):
+    xs = decode(k["ln"], [k[f"c{{i}}"] for i in range({maxlen})])
+    xf = MKXF(k["n"])
+    return ("input", canon(xs), "n", k["n"], "applications", [canon(a(xf, vec.vector(xs))) for a in APPS], "expected", canon(REF(list(xs), k["n"])))
+'''
+    cs = ", ".join(f"c{i}" for i in range(maxlen))
+    skip = "    if conflated(xs):\n        return True\n" if f == "distinct" else ""
+    body = f'''    xs = decode(ln, [{cs}])
+{skip}    expect = canon(REF(list(xs), n))
+    xf = MKXF(n)
+    for app in APPS:
+        if canon(app(xf, vec.vector(xs))) != expect:
+            return False
+    return True'''
+    sig = "ln: int, " + ", ".join(f"c{i}: int" for i in range(maxlen)) + ", n: int"
+    if n_fixed is not None:
+        lo = hi = n_fixed
+    pre = [f"0 <= ln <= {maxlen}"] + [f"0 <= c{i} < 7" for i in range(maxlen)] + [f"{lo} <= n <= {hi}"]
+    return Spec(f"xform-value-reused/{f}" + (f"/n={n_fixed}" if n_fixed is not None else ""), harness(sig, body, pre=pre, module_code=module, warm=[]), timeout=timeout,
+                bound=f"one transducer value, 5 applications; len(xs) <= {maxlen}, elements from the 7-value universe, n in {lo}..{hi}",
+                meta={"fns": [f], "form": "reuse", "conflate": False})
+
+
 def early_specs(maxlen, timeout):
     out = []
     body = '''    it = Counting(xs)
@@ -260,6 +296,10 @@ def run(rep, tier, seed):
     for f in FUNS:
         if f != "take":
             specs.append(pulls_spec(f, to))
+        if FUNS[f][3] is None:
+            specs.append(reuse_spec(f, maxlen, to * 2))
+        else:
+            specs += [reuse_spec(f, maxlen, to * 2, nv) for nv in range(FUNS[f][3][0], FUNS[f][3][1] + 1)]
     rnd = random.Random(seed)
     # early termination is where stateful transducers interact: every function followed by `take` (the terminating step is
     # called again by mapcat / cat / interpose / partition-by after it has returned `reduced`) and `take` followed by every function
